@@ -1573,6 +1573,11 @@ ssize_t write(int fd, const void *buf, size_t n)
         int err = 0;
         int ord = F.counts[FS_WRITE];
         count(C_FS_WRITE);
+        if (F.cfg.fail_write_errno && F.cfg.fail_write_path == rel) {
+            count(C_FS_WRITE_REFUSED);
+            errno = F.cfg.fail_write_errno;
+            return -1;
+        }
         if (fault_hits(FS_WRITE, &err)) {
             boundary(FS_WRITE, "write", rel, nullptr, ord, false, buf, 0, fd, err);
             errno = err;
